@@ -1,8 +1,1132 @@
-//! C10 — not built yet.
+//! C10 — printed numbers read back to the same value (DESIGN §4 C10).
+//!
+//! Oracle: Rust's correctly rounded `str::parse::<f64>` applied to the *printed* text
+//! (after checking the text against the JSON number grammar with O-jsonval, or the YAML 1.2
+//! core-schema number rules written here). The printers are the repository's public
+//! formatter entry points and, sampled, the `succinctly jq` / `succinctly yq` binaries.
+use crate::cli;
 use crate::engine::*;
+use crate::gen::json::{self, J};
+use crate::oracle::jqeval::{self, Route};
+use crate::oracle::jsonval;
+use serde_json::{json, Value};
+use succinctly::jq::document::IndentSpec;
+use succinctly::jq::stream::stream_owned_value_json_jq;
+use succinctly::jq::{format_number_jq_compat, OwnedValue, StreamableValue};
+use succinctly::yaml::{format_float_with_fraction, format_float_yq, format_float_yq_yaml, format_float_yq_yaml_nested, resolve_plain, ResolvedScalar};
 
-pub const RULE: &str = "not built";
+pub const RULE: &str = "finite doubles (random bit patterns, subnormals, +-0, 10^k and 2^k with +-ulp neighbours, integers around 2^53/2^63/2^64, 1-17 digit decimals with exponents -330..310, neighbours of the yq notation thresholds, f32 values, extremes), every i64 class (boundaries, powers of two/ten +-1, random) and JSON-grammar literals (G-json number shapes, 1-40 digit mantissas with exponents -400..400, zero spellings, exact halfway points between adjacent doubles +- a last digit, overflow/underflow edges; kept only when the value is finite) pushed through every public number printer of jq mode and yq mode (JSON and YAML output), in-process and through the CLI; the printed text must be a number in the output's grammar and parse (Rust str::parse::<f64>) to the source double; i64 must print digit for digit. Non-trivial: double needing >=16 significant digits or with decimal exponent outside [-5,17); literal whose spelling differs from the shortest form of its value; distinct by bit pattern / literal text.";
+
+// ---------------------------------------------------------------- YAML 1.2 core schema numbers
+
+#[derive(Debug, Clone, PartialEq)]
+enum YNum {
+    /// `[-+]?[0-9]+`, `0o…`, `0x…`: value and the decimal digits when written in base 10
+    Int(f64, Option<String>),
+    Float(f64),
+}
+
+impl YNum {
+    fn value(&self) -> f64 {
+        match self {
+            YNum::Int(v, _) | YNum::Float(v) => *v,
+        }
+    }
+}
+
+/// Resolve one plain scalar token under the YAML 1.2 core schema (10.3.2); an optional
+/// `!!float ` / `!!int ` tag in front is honoured. Err when the token is not a number.
+fn yaml_number(tok: &str) -> Result<YNum, String> {
+    let (tag, t) = if let Some(r) = tok.strip_prefix("!!float ") {
+        (Some("float"), r)
+    } else if let Some(r) = tok.strip_prefix("!!int ") {
+        (Some("int"), r)
+    } else {
+        (None, tok)
+    };
+    let b = t.as_bytes();
+    if b.is_empty() {
+        return Err("empty scalar (null)".into());
+    }
+    let digits = |s: &[u8]| !s.is_empty() && s.iter().all(|c| c.is_ascii_digit());
+    let unsigned = if b[0] == b'-' || b[0] == b'+' { &b[1..] } else { b };
+    let r = if digits(unsigned) {
+        // base-10 integer of any size
+        let v: f64 = t.parse().map_err(|_| "integer does not parse")?;
+        YNum::Int(v, Some(t.trim_start_matches('+').to_string()))
+    } else if t.starts_with("0o") && b.len() > 2 && b[2..].iter().all(|c| (b'0'..=b'7').contains(c)) {
+        YNum::Int(u128::from_str_radix(&t[2..], 8).map_err(|_| "octal too long")? as f64, None)
+    } else if t.starts_with("0x") && b.len() > 2 && b[2..].iter().all(|c| c.is_ascii_hexdigit()) {
+        YNum::Int(u128::from_str_radix(&t[2..], 16).map_err(|_| "hex too long")? as f64, None)
+    } else if matches!(t, ".inf" | ".Inf" | ".INF" | "+.inf" | "+.Inf" | "+.INF") {
+        YNum::Float(f64::INFINITY)
+    } else if matches!(t, "-.inf" | "-.Inf" | "-.INF") {
+        YNum::Float(f64::NEG_INFINITY)
+    } else if matches!(t, ".nan" | ".NaN" | ".NAN") {
+        YNum::Float(f64::NAN)
+    } else {
+        // [-+]? ( \. [0-9]+ | [0-9]+ ( \. [0-9]* )? ) ( [eE] [-+]? [0-9]+ )?
+        let mut i = 0;
+        let u = unsigned;
+        let mut int_digits = 0;
+        while i < u.len() && u[i].is_ascii_digit() {
+            i += 1;
+            int_digits += 1;
+        }
+        let mut frac_digits = 0;
+        if i < u.len() && u[i] == b'.' {
+            i += 1;
+            while i < u.len() && u[i].is_ascii_digit() {
+                i += 1;
+                frac_digits += 1;
+            }
+        }
+        if int_digits == 0 && frac_digits == 0 {
+            return Err(format!("not a core-schema number: {:?}", tok));
+        }
+        if i < u.len() && (u[i] == b'e' || u[i] == b'E') {
+            i += 1;
+            if i < u.len() && (u[i] == b'-' || u[i] == b'+') {
+                i += 1;
+            }
+            let s = i;
+            while i < u.len() && u[i].is_ascii_digit() {
+                i += 1;
+            }
+            if i == s {
+                return Err(format!("not a core-schema number: {:?}", tok));
+            }
+        }
+        if i != u.len() {
+            return Err(format!("not a core-schema number: {:?}", tok));
+        }
+        // Rust's parser accepts exactly these spellings ("1.", ".5", "+1e5")
+        YNum::Float(t.parse::<f64>().map_err(|_| format!("float does not parse: {:?}", tok))?)
+    };
+    Ok(match (tag, r) {
+        (Some("float"), YNum::Int(v, _)) => YNum::Float(v),
+        (Some("int"), YNum::Float(_)) => return Err(format!("!!int on a float spelling: {:?}", tok)),
+        (_, r) => r,
+    })
+}
+
+// ---------------------------------------------------------------- reading back
+
+/// the text must be exactly one JSON number; its value
+fn json_number(text: &str) -> Result<f64, String> {
+    match jsonval::parse_one(text.as_bytes()) {
+        Ok(J::Num(n)) => Ok(n.value),
+        Ok(other) => Err(format!("a JSON {} instead of a number", other.kind())),
+        Err(e) => Err(format!("not JSON: {} at {}", e.msg, e.offset)),
+    }
+}
+
+fn same(a: f64, b: f64) -> bool {
+    // numeric equality; for non-zero finite doubles this is bit equality
+    a == b
+}
+
+struct Mis {
+    route: &'static str,
+    shape: &'static str,
+    printed: String,
+    why: String,
+}
+
+fn expect_json(route: &'static str, printed: String, want: f64) -> Result<(), Mis> {
+    match json_number(&printed) {
+        Ok(v) if same(v, want) => Ok(()),
+        Ok(v) => Err(Mis { route, shape: "value-differs", why: format!("reads back as {:e}", v), printed }),
+        Err(e) => Err(Mis { route, shape: "not-a-number", why: e, printed }),
+    }
+}
+
+fn expect_yaml(route: &'static str, printed: String, want: f64) -> Result<(), Mis> {
+    // harness reading
+    match yaml_number(&printed) {
+        Ok(n) if same(n.value(), want) => {}
+        Ok(n) => return Err(Mis { route, shape: "value-differs", why: format!("reads back as {:e}", n.value()), printed }),
+        Err(e) => return Err(Mis { route, shape: "not-a-number", why: e, printed }),
+    }
+    // the repository's own reader must agree about what it printed
+    let t = printed.strip_prefix("!!float ").unwrap_or(&printed);
+    let ok = match resolve_plain(t) {
+        ResolvedScalar::Float(x) => same(x, want),
+        // i64 -> f64 is round-to-nearest-even, the same rounding a parse of the digits applies
+        ResolvedScalar::Int(n) => same(n as f64, want),
+        _ => false,
+    };
+    if !ok {
+        return Err(Mis { route, shape: "resolve_plain-differs", why: format!("resolve_plain -> {:?}", resolve_plain(t)), printed });
+    }
+    Ok(())
+}
+
+fn stream_json_of(v: &OwnedValue, indent: IndentSpec) -> String {
+    let mut s = String::new();
+    v.stream_json(&mut s, indent, false).expect("writing to a String");
+    s
+}
+
+fn stream_yaml_of(v: &OwnedValue, indent: IndentSpec) -> String {
+    let mut s = String::new();
+    v.stream_yaml(&mut s, indent, false).expect("writing to a String");
+    s
+}
+
+fn stream_jq_of(v: &OwnedValue) -> String {
+    let mut s = String::new();
+    stream_owned_value_json_jq(v, &mut s).expect("writing to a String");
+    s
+}
+
+/// `[x]` printed as JSON -> the text of x
+fn unwrap_json_array1(route: &'static str, printed: String) -> Result<String, Mis> {
+    let t = printed.trim();
+    match t.strip_prefix('[').and_then(|r| r.strip_suffix(']')) {
+        Some(inner) => Ok(inner.trim().to_string()),
+        None => Err(Mis { route, shape: "not-a-number", why: "array wrapper lost".into(), printed }),
+    }
+}
+
+// ---------------------------------------------------------------- per-value checks
+
+/// every public printer of a computed (non-literal) float
+fn check_float(f: f64, st: &mut Stats) -> Result<(), Mis> {
+    let v = OwnedValue::float(f);
+    // jq mode
+    expect_json("jq/OwnedValue::float.to_json", v.to_json(), f)?;
+    expect_json("jq/stream_owned_value_json_jq", stream_jq_of(&v), f)?;
+    let arr = OwnedValue::array_from(vec![OwnedValue::float(f)]);
+    expect_json("jq/to_json(nested)", unwrap_json_array1("jq/to_json(nested)", arr.to_json())?, f)?;
+    // yq mode, JSON output
+    expect_json("yq-json/format_float_with_fraction", format_float_with_fraction(f), f)?;
+    expect_json("yq-json/format_float_yq", format_float_yq(f), f)?;
+    expect_json("yq-json/stream_json", stream_json_of(&v, IndentSpec::COMPACT), f)?;
+    expect_json("yq-json/stream_json(nested)", unwrap_json_array1("yq-json/stream_json(nested)", stream_json_of(&arr, IndentSpec::spaces(2)))?, f)?;
+    // yq mode, YAML output
+    expect_yaml("yq-yaml/format_float_with_fraction", format_float_with_fraction(f), f)?;
+    expect_yaml("yq-yaml/format_float_yq", format_float_yq(f), f)?;
+    expect_yaml("yq-yaml/format_float_yq_yaml", format_float_yq_yaml(f), f)?;
+    expect_yaml("yq-yaml/format_float_yq_yaml_nested", format_float_yq_yaml_nested(f), f)?;
+    expect_yaml("yq-yaml/stream_yaml(root)", stream_yaml_of(&v, IndentSpec::spaces(2)), f)?;
+    let y = stream_yaml_of(&arr, IndentSpec::spaces(2));
+    match y.strip_prefix("- ") {
+        Some(tok) => expect_yaml("yq-yaml/stream_yaml(nested)", tok.trim_end().to_string(), f)?,
+        None => return Err(Mis { route: "yq-yaml/stream_yaml(nested)", shape: "not-a-number", why: "no `- ` item".into(), printed: y }),
+    }
+    let obj = OwnedValue::object_from(vec![("a".to_string(), OwnedValue::float(f))]);
+    let y = stream_yaml_of(&obj, IndentSpec::spaces(2));
+    match y.strip_prefix("a: ") {
+        Some(tok) => expect_yaml("yq-yaml/stream_yaml(field)", tok.trim_end().to_string(), f)?,
+        None => return Err(Mis { route: "yq-yaml/stream_yaml(field)", shape: "not-a-number", why: "no `a: ` field".into(), printed: y }),
+    }
+    st.evals(15);
+    Ok(())
+}
+
+fn expect_exact(route: &'static str, printed: String, want: &str) -> Result<(), Mis> {
+    if printed == want {
+        Ok(())
+    } else {
+        Err(Mis { route, shape: "int-not-exact", why: format!("expected {}", want), printed })
+    }
+}
+
+/// harness-side decimal rendering of an i64 (digit loop; not Rust's Display)
+fn i64_digits(n: i64) -> String {
+    let mut m = (n as i128).unsigned_abs();
+    if m == 0 {
+        return "0".into();
+    }
+    let mut d = vec![];
+    while m > 0 {
+        d.push(b'0' + (m % 10) as u8);
+        m /= 10;
+    }
+    if n < 0 {
+        d.push(b'-');
+    }
+    d.reverse();
+    String::from_utf8(d).unwrap()
+}
+
+fn check_int(n: i64, st: &mut Stats) -> Result<(), Mis> {
+    let want = i64_digits(n);
+    let v = OwnedValue::int(n);
+    expect_exact("jq/OwnedValue::int.to_json", v.to_json(), &want)?;
+    expect_exact("jq/stream_owned_value_json_jq(int)", stream_jq_of(&v), &want)?;
+    expect_exact("yq-json/stream_json(int)", stream_json_of(&v, IndentSpec::COMPACT), &want)?;
+    expect_exact("yq-yaml/stream_yaml(int)", stream_yaml_of(&v, IndentSpec::spaces(2)), &want)?;
+    let arr = OwnedValue::array_from(vec![OwnedValue::int(n)]);
+    expect_exact("jq/to_json(int nested)", arr.to_json(), &format!("[{}]", want))?;
+    expect_exact("yq-yaml/stream_yaml(int nested)", stream_yaml_of(&arr, IndentSpec::spaces(2)), &format!("- {}", want))?;
+    // the literal route: the digits as a document token
+    let lit = OwnedValue::from_number_bytes(want.as_bytes());
+    expect_exact("jq/from_number_bytes.to_json(int)", lit.to_json(), &want)?;
+    expect_exact("jq/format_number_jq_compat(int)", format_number_jq_compat(want.as_bytes()), &want)?;
+    expect_exact("yq-json/from_number_bytes.stream_json(int)", stream_json_of(&lit, IndentSpec::COMPACT), &want)?;
+    expect_exact("yq-yaml/from_number_bytes.stream_yaml(int)", stream_yaml_of(&lit, IndentSpec::spaces(2)), &want)?;
+    let plain = OwnedValue::from_number_literal_plain(&want);
+    expect_exact("yq-json/from_number_literal_plain.stream_json(int)", stream_json_of(&plain, IndentSpec::COMPACT), &want)?;
+    // and the YAML reader sees the same integer
+    match resolve_plain(&want) {
+        ResolvedScalar::Int(m) if m == n => {}
+        other => return Err(Mis { route: "yq-yaml/resolve_plain(int)", shape: "int-not-exact", why: format!("{:?}", other), printed: want }),
+    }
+    st.evals(12);
+    Ok(())
+}
+
+/// every public printer of a number that came from document text
+fn check_literal(lit: &str, want: f64, st: &mut Stats) -> Result<(), Mis> {
+    let b = lit.as_bytes();
+    // jq mode
+    expect_json("jq/format_number_jq_compat", format_number_jq_compat(b), want)?;
+    let v = OwnedValue::from_number_bytes(b);
+    expect_json("jq/from_number_bytes.to_json", v.to_json(), want)?;
+    expect_json("jq/from_number_bytes.stream_jq", stream_jq_of(&v), want)?;
+    // once computed with, the literal is dropped
+    let p = v.clone().into_plain_number();
+    expect_json("jq/into_plain_number.to_json", p.to_json(), want)?;
+    // yq mode: literal echoed, or canonicalised (JSON-sourced input)
+    expect_json("yq-json/from_number_bytes.stream_json", stream_json_of(&v, IndentSpec::COMPACT), want)?;
+    expect_yaml("yq-yaml/from_number_bytes.stream_yaml", stream_yaml_of(&v, IndentSpec::spaces(2)), want)?;
+    let plain = OwnedValue::from_number_literal_plain(lit);
+    expect_json("yq-json/from_number_literal_plain.stream_json", stream_json_of(&plain, IndentSpec::COMPACT), want)?;
+    expect_yaml("yq-yaml/from_number_literal_plain.stream_yaml", stream_yaml_of(&plain, IndentSpec::spaces(2)), want)?;
+    let arr = OwnedValue::array_from(vec![plain]);
+    let y = stream_yaml_of(&arr, IndentSpec::spaces(2));
+    match y.strip_prefix("- ") {
+        Some(tok) => expect_yaml("yq-yaml/from_number_literal_plain.stream_yaml(nested)", tok.trim_end().to_string(), want)?,
+        None => return Err(Mis { route: "yq-yaml/from_number_literal_plain.stream_yaml(nested)", shape: "not-a-number", why: "no `- ` item".into(), printed: y }),
+    }
+    st.evals(9);
+    Ok(())
+}
+
+/// the document route: the literal inside a JSON text, through the jq evaluator
+fn check_literal_document(lits: &[(String, f64)], st: &mut Stats) -> Result<(), Mis> {
+    let doc = format!("[{}]", lits.iter().map(|l| l.0.as_str()).collect::<Vec<_>>().join(","));
+    for (prog, route_name) in [(".", "jq/eval(.)"), (".[]", "jq/eval(.[])"), ("map(. + 0)", "jq/eval(map(.+0))"), ("map(. * 1)", "jq/eval(map(.*1))"), ("map(-(-.))", "jq/eval(map(-(-.)))"), ("tojson", "jq/eval(tojson)"), ("map(tostring)", "jq/eval(map(tostring))")] {
+        let o = jqeval::run(Route::Generic, prog, doc.as_bytes());
+        st.evals(lits.len() as u64);
+        let fail = |why: String, printed: String| Mis { route: route_name, shape: "evaluation", why, printed };
+        if let Some(e) = &o.error {
+            return Err(fail(e.clone(), doc.clone()));
+        }
+        // normalise each program's output to a list of number texts
+        let texts: Vec<String> = match prog {
+            ".[]" => o.texts.clone(),
+            "tojson" => match o.outputs.first() {
+                Some(J::Str(s)) => split_json_array(s).ok_or_else(|| fail("tojson did not print an array".into(), s.clone()))?,
+                _ => return Err(fail("tojson did not yield a string".into(), o.texts.join(" "))),
+            },
+            "map(tostring)" => match o.outputs.first() {
+                Some(J::Arr(a)) => a.iter().map(|x| if let J::Str(s) = x { s.clone() } else { "<not a string>".into() }).collect(),
+                _ => return Err(fail("no array".into(), o.texts.join(" "))),
+            },
+            _ => match o.texts.first() {
+                Some(t) => split_json_array(t).ok_or_else(|| fail("output is not an array".into(), t.clone()))?,
+                None => return Err(fail("no output".into(), String::new())),
+            },
+        };
+        if texts.len() != lits.len() {
+            return Err(fail(format!("{} numbers for {} inputs", texts.len(), lits.len()), texts.join(",")));
+        }
+        for (t, (_, want)) in texts.iter().zip(lits) {
+            expect_json(route_name, t.clone(), *want)?;
+        }
+    }
+    Ok(())
+}
+
+/// split the text of a flat JSON array of scalars into element texts
+fn split_json_array(t: &str) -> Option<Vec<String>> {
+    let inner = t.trim().strip_prefix('[')?.strip_suffix(']')?;
+    if inner.trim().is_empty() {
+        return Some(vec![]);
+    }
+    Some(inner.split(',').map(|s| s.trim().to_string()).collect())
+}
+
+// ---------------------------------------------------------------- generators
+
+fn ulps(f: f64, d: i64) -> f64 {
+    if f == 0.0 || !f.is_finite() {
+        return f;
+    }
+    let b = f.to_bits();
+    let mag = (b & 0x7fff_ffff_ffff_ffff) as i64 + d;
+    if mag <= 0 || mag >= 0x7ff0_0000_0000_0000 {
+        return f;
+    }
+    f64::from_bits((b & 0x8000_0000_0000_0000) | mag as u64)
+}
+
+const THRESHOLDS: &[f64] = &[1e-7, 1e-6, 1e-5, 1e-4, 1e-3, 0.1, 1.0, 10.0, 99999.5, 1e5, 999999.5, 1e6, 1e7, 1e15, 1e16, 1e17, 1e18, 1e19, 1e20, 1e21, 1e22, 1e23, 123456.7, 0.000012345, 9.999999999999999e-5, 0.00009999999999999999, 999999.9999999999];
+
+fn gen_f64(u: &mut Src) -> (f64, &'static str) {
+    let sign = |u: &mut Src, f: f64| if u.ratio(1, 3) { -f } else { f };
+    let (f, class) = match u.below(15) {
+        0 | 1 => (f64::from_bits(u.u64()), "random-bits"),
+        2 => {
+            let m = match u.below(4) {
+                0 => *u.pick(&[1u64, 2, 3, 0x000f_ffff_ffff_ffff, 0x0008_0000_0000_0000, 0x000f_ffff_ffff_fffe]),
+                _ => u.u64() & 0x000f_ffff_ffff_ffff,
+            };
+            let f = f64::from_bits(m.max(1));
+            (sign(u, f), "subnormal")
+        }
+        3 => (if u.bool() { 0.0 } else { -0.0 }, "zero"),
+        4 => {
+            let k = u.range_i64(-324, 308);
+            let f: f64 = format!("1e{}", k).parse().unwrap();
+            let d = u.range_i64(-2, 2);
+            (sign(u, ulps(f, d)), "pow10")
+        }
+        5 => {
+            let k = u.range_i64(-1074, 1023) as i32;
+            let f = if k >= -1022 { f64::from_bits(((k + 1023) as u64) << 52) } else { f64::from_bits(1u64 << (k + 1074)) };
+            let d = u.range_i64(-2, 2);
+            (sign(u, ulps(f, d)), "pow2")
+        }
+        6 => {
+            let base = *u.pick(&[9007199254740992.0f64, 9223372036854775808.0, 18446744073709551616.0, 4294967296.0, 2147483648.0, 1e15, 1e16]);
+            let f = ulps(base, u.range_i64(-6, 6));
+            (sign(u, f), "near-2^53-2^63-2^64")
+        }
+        7 => {
+            let n = match u.below(3) {
+                0 => *u.pick(&[i64::MAX, i64::MIN, i64::MAX - 1, i64::MIN + 1, (1i64 << 53) + 1, -(1i64 << 53) - 1, 999_999_999_999_999_999]),
+                _ => u.u64() as i64 >> u.below(63),
+            };
+            (n as f64, "integer-valued")
+        }
+        8 | 9 => {
+            let nd = u.range(1, 17);
+            let mut s = String::new();
+            s.push((b'1' + u.below(9) as u8) as char);
+            for _ in 1..nd {
+                s.push((b'0' + u.below(10) as u8) as char);
+            }
+            let e = match u.below(3) {
+                0 => u.range_i64(-330, 310),
+                _ => u.range_i64(-25, 25),
+            };
+            let f: f64 = format!("{}e{}", s, e).parse().unwrap();
+            (sign(u, f), "short-decimal")
+        }
+        10 => {
+            let base = *u.pick(THRESHOLDS);
+            let d = u.range_i64(-3, 3);
+            (sign(u, ulps(base, d)), "notation-threshold")
+        }
+        11 => {
+            let num = u.range_i64(-100_000, 100_000) as f64;
+            let den = (1u64 << u.below(20)) as f64;
+            (num / den, "dyadic-small")
+        }
+        12 => (f32::from_bits(u.u32()) as f64, "f32"),
+        13 => {
+            let base = *u.pick(&[f64::MAX, f64::MIN_POSITIVE, 5e-324, 2.2250738585072009e-308, 1.7976931348623157e308]);
+            let d = -(u.below(3) as i64);
+            (sign(u, ulps(base, d)), "extreme")
+        }
+        _ => {
+            // uniform mantissa, decimal exponent in the window where notations switch
+            let m = 1.0 + (u.u64() >> 12) as f64 / (1u64 << 52) as f64;
+            let e = u.range_i64(-8, 23);
+            let f: f64 = format!("{:?}e{}", m * 1.5, e).parse().unwrap();
+            (sign(u, f), "window")
+        }
+    };
+    if f.is_finite() {
+        (f, class)
+    } else {
+        // keep the mantissa, drop into the finite range
+        (f64::from_bits(f.to_bits() & 0xbfff_ffff_ffff_ffff | 0x0010_0000_0000_0000), "random-bits")
+    }
+}
+
+fn float_nontrivial(f: f64) -> bool {
+    if f == 0.0 {
+        return false;
+    }
+    let s = format!("{:e}", f);
+    let (m, e) = s.split_once('e').unwrap();
+    let digits = m.bytes().filter(|c| c.is_ascii_digit()).count();
+    let e: i32 = e.parse().unwrap();
+    digits >= 16 || !(-5..17).contains(&e)
+}
+
+fn gen_i64(u: &mut Src) -> (i64, &'static str) {
+    match u.below(8) {
+        0 => (*u.pick(&[0, 1, -1, i64::MAX, i64::MIN, i64::MAX - 1, i64::MIN + 1]), "boundary"),
+        1 => {
+            let k = u.range(0, 62);
+            ((1i64 << k).wrapping_add(u.range_i64(-2, 2)) * if u.bool() { -1 } else { 1 }, "pow2+-")
+        }
+        2 => {
+            let k = u.range(0, 18) as u32;
+            (10i64.pow(k).wrapping_add(u.range_i64(-2, 2)) * if u.bool() { -1 } else { 1 }, "pow10+-")
+        }
+        3 => ((1i64 << 53) + u.range_i64(-4, 4), "near-2^53"),
+        4 => (u.range_i64(-1000, 1000), "small"),
+        5 => (i64::MAX - u.range_i64(0, 1000), "near-max"),
+        6 => (i64::MIN + u.range_i64(0, 1000), "near-min"),
+        _ => ((u.u64() as i64) >> u.below(64).min(63), "random"),
+    }
+}
+
+// -- tiny big-integer (base 10^9) for exact decimal expansions of binary fractions
+
+struct Big(Vec<u32>);
+
+impl Big {
+    fn from_u64(x: u64) -> Big {
+        let mut v = vec![];
+        let mut x = x;
+        while x > 0 {
+            v.push((x % 1_000_000_000) as u32);
+            x /= 1_000_000_000;
+        }
+        Big(v)
+    }
+    fn mul_small(&mut self, m: u32) {
+        let mut carry = 0u64;
+        for l in self.0.iter_mut() {
+            let t = *l as u64 * m as u64 + carry;
+            *l = (t % 1_000_000_000) as u32;
+            carry = t / 1_000_000_000;
+        }
+        while carry > 0 {
+            self.0.push((carry % 1_000_000_000) as u32);
+            carry /= 1_000_000_000;
+        }
+    }
+    fn digits(&self) -> String {
+        match self.0.split_last() {
+            None => "0".into(),
+            Some((top, rest)) => {
+                let mut s = top.to_string();
+                for l in rest.iter().rev() {
+                    s.push_str(&format!("{:09}", l));
+                }
+                s
+            }
+        }
+    }
+}
+
+/// exact decimal text of m * 2^e (m > 0)
+fn exact_decimal(m: u64, e: i32) -> String {
+    let mut b = Big::from_u64(m);
+    if e >= 0 {
+        let mut k = e;
+        while k > 0 {
+            let s = k.min(29);
+            b.mul_small(1u32 << s);
+            k -= s;
+        }
+        b.digits()
+    } else {
+        let mut k = -e;
+        let n = k as usize;
+        while k > 0 {
+            let s = k.min(13);
+            b.mul_small(5u32.pow(s as u32));
+            k -= s;
+        }
+        let d = b.digits();
+        if d.len() > n {
+            format!("{}.{}", &d[..d.len() - n], &d[d.len() - n..])
+        } else {
+            format!("0.{}{}", "0".repeat(n - d.len()), d)
+        }
+    }
+}
+
+/// (mantissa, exponent) with f = mantissa * 2^exponent exactly, f > 0 finite
+fn decompose(f: f64) -> (u64, i32) {
+    let b = f.to_bits();
+    let e = ((b >> 52) & 0x7ff) as i32;
+    let m = b & 0x000f_ffff_ffff_ffff;
+    if e == 0 {
+        (m, -1074)
+    } else {
+        (m | (1 << 52), e - 1075)
+    }
+}
+
+/// shift a plain decimal text by 10^k using an exponent suffix (value unchanged)
+fn with_exponent(u: &mut Src, plain: &str) -> String {
+    match u.below(3) {
+        0 => plain.to_string(),
+        1 => format!("{}e0", plain),
+        _ => {
+            // move the point left by k digits and compensate in the exponent
+            let k = u.range(1, 30);
+            let (ip, fp) = plain.split_once('.').unwrap_or((plain, ""));
+            let ip_p = format!("{}{}", "0".repeat(k), ip);
+            let cut = ip_p.len() - k;
+            let new_ip = ip_p[..cut].trim_start_matches('0');
+            let new_ip = if new_ip.is_empty() { "0" } else { new_ip };
+            format!("{}.{}{}{}{}", new_ip, &ip_p[cut..], fp, if u.bool() { "e" } else { "E+" }, k)
+        }
+    }
+}
+
+fn gen_literal(u: &mut Src) -> (String, &'static str) {
+    let neg = |u: &mut Src, s: String| if u.ratio(1, 4) { format!("-{}", s) } else { s };
+    match u.below(12) {
+        0 | 1 => match json::gen_number(u, 2) {
+            J::Num(n) => (n.text, "g-json"),
+            _ => ("0".into(), "g-json"),
+        },
+        2 | 3 => {
+            // mantissa digits, optional point, exponent
+            let nd = match u.below(4) {
+                0 => u.range(1, 5),
+                1 => u.range(15, 20),
+                _ => u.range(1, 40),
+            };
+            let mut ds: String = (0..nd).map(|_| (b'0' + u.below(10) as u8) as char).collect();
+            if ds.len() > 1 && ds.starts_with('0') {
+                ds.replace_range(0..1, "7");
+            }
+            let point = u.below(nd + 1);
+            let mant = if point == 0 || point >= nd {
+                ds
+            } else {
+                format!("{}.{}", &ds[..point], &ds[point..])
+            };
+            let mant = if mant.len() > 1 && mant.starts_with('0') && !mant.starts_with("0.") { format!("0.{}", &mant[1..].replace('.', "")) } else { mant };
+            let s = if u.ratio(2, 3) {
+                let e = match u.below(3) {
+                    0 => u.range_i64(-400, 400),
+                    _ => u.range_i64(-30, 30),
+                };
+                let esign = if e < 0 { "-" } else if u.bool() { "+" } else { "" };
+                format!("{}{}{}{}{}", mant, if u.bool() { 'e' } else { 'E' }, esign, "0".repeat(u.below(3)), e.abs())
+            } else {
+                mant
+            };
+            (neg(u, s), "mantissa-exponent")
+        }
+        4 => {
+            let z = *u.pick(&["0", "-0", "0.0", "-0.0", "0e0", "0E0", "-0e-0", "0.000e5", "-0.0e-7", "0E+5", "0e-400", "-0e400", "0.0e400", "0.00000000000000000000", "0e+0000"]);
+            (z.to_string(), "zero-spelling")
+        }
+        5 | 6 => {
+            // exact halfway point between two adjacent doubles, or a hair off it
+            let mut f = gen_f64(u).0.abs();
+            if f == 0.0 || f >= f64::MAX {
+                f = 1.0;
+            }
+            let (m, e) = decompose(f);
+            let mid = exact_decimal(2 * m + 1, e - 1);
+            let s = match u.below(4) {
+                0 => mid,
+                1 => format!("{}{}1", mid, "0".repeat(u.below(30))),
+                2 => {
+                    // ends in 5: a hair below
+                    let mut t = mid.clone();
+                    t.pop();
+                    format!("{}4{}", t, "9".repeat(u.range(1, 30)))
+                }
+                _ => {
+                    if mid.contains('.') {
+                        format!("{}{}", mid, "0".repeat(u.range(1, 30)))
+                    } else {
+                        format!("{}.{}", mid, "0".repeat(u.range(1, 30)))
+                    }
+                }
+            };
+            let s = if s.len() < 400 { with_exponent(u, &s) } else { s };
+            (neg(u, s), "halfway")
+        }
+        7 => {
+            // exact expansion of a double itself (up to ~770 digits), optionally respelled
+            let mut f = gen_f64(u).0.abs();
+            if f == 0.0 {
+                f = 0.1;
+            }
+            let (m, e) = decompose(f);
+            let s = exact_decimal(m, e);
+            let s = if s.len() < 400 { with_exponent(u, &s) } else { s };
+            (neg(u, s), "exact-expansion")
+        }
+        8 => {
+            let s = *u.pick(&[
+                "1.7976931348623157e308", "1.7976931348623158e308", "1.797693134862315807e308", "17976931348623157e292", "0.17976931348623157e309",
+                "2.4703282292062327e-324", "2.4703282292062328e-324", "4.9406564584124654e-324", "4.9e-324", "5e-324", "3e-324", "2e-324",
+                "2.2250738585072011e-308", "2.2250738585072014e-308", "2.225073858507201e-308",
+                "9007199254740992", "9007199254740993", "9007199254740994", "9007199254740993.0", "9007199254740993e0", "9223372036854775807", "9223372036854775808", "-9223372036854775808", "-9223372036854775809", "18446744073709551615", "18446744073709551616",
+                "9223372036854775807.0", "9223372036854775807e0", "1e19", "1E19", "123456789012345678901234567890", "0.1e1", "100e-2", "1e-1", "12345678901234567890e-20",
+            ]);
+            (s.to_string(), "edge")
+        }
+        9 => {
+            // long runs of zeros
+            let d = u.range(1, 99999);
+            let z = u.range(1, 330);
+            let s = match u.below(4) {
+                0 => format!("0.{}{}", "0".repeat(z), d),
+                1 => format!("{}{}", d, "0".repeat(z.min(300))),
+                2 => format!("{}.{}1e{}", d, "0".repeat(z), u.range_i64(-30, 30)),
+                _ => format!("{}{}e-{}", d, "0".repeat(z.min(300)), u.range(0, 600)),
+            };
+            (neg(u, s), "zero-runs")
+        }
+        10 => {
+            // an integer literal of 1..40 digits
+            let nd = u.range(1, 40);
+            let mut s = String::new();
+            s.push((b'1' + u.below(9) as u8) as char);
+            for _ in 1..nd {
+                s.push((b'0' + u.below(10) as u8) as char);
+            }
+            (neg(u, s), "integer-literal")
+        }
+        11 if u.ratio(1, 150) => {
+            // more significant digits than jq mode's rendered-mantissa cap (100 000): a tiny
+            // halfway point, >100 000 zeros, a final 1, and an exponent marker so that the
+            // scientific (capped) rendering is chosen
+            let k = u.range_i64(-300, -8);
+            let mut f: f64 = format!("{}e{}", u.range(1, 9999), k).parse().unwrap();
+            if f == 0.0 || !f.is_normal() {
+                f = 1e-10;
+            }
+            let (m, e) = decompose(f);
+            let mid = exact_decimal(2 * m + 1, e - 1);
+            let z = u.range(100_001, 100_400);
+            let tail = if u.ratio(1, 4) { "" } else { "1" };
+            (format!("{}{}{}{}", mid, "0".repeat(z), tail, *u.pick(&["e0", "E0", "e-5", "e3"])), "beyond-mantissa-cap")
+        }
+        _ => {
+            // the shortest spelling of a double, as Rust prints it in its two styles
+            let f = gen_f64(u).0;
+            (if u.bool() { format!("{:e}", f) } else { format!("{:?}", f) }, "shortest")
+        }
+    }
+}
+
+fn literal_nontrivial(lit: &str, v: f64) -> bool {
+    lit != format!("{:?}", v) && lit != format!("{}", v) && lit != format!("{:e}", v)
+}
+
+// ---------------------------------------------------------------- failure plumbing
+
+pub const MANTISSA_CAP: usize = 100_000;
+const KNOWN_CAP_SIG: &str = "C10/jq/literal-mantissa-beyond-100000-digits/value-differs";
+
+fn significant_digits(lit: &str) -> usize {
+    let mant = lit.split(['e', 'E']).next().unwrap_or("");
+    let d: String = mant.chars().filter(|c| c.is_ascii_digit()).collect();
+    d.trim_start_matches('0').len()
+}
+
+/// Failure of a literal route. A literal with more significant digits than jq mode's
+/// rendered-mantissa cap whose printed value differs is the recorded finding; anything
+/// else keeps its own signature.
+fn literal_fail(m: Mis, lit: &str, input: Value) -> Fail {
+    if m.shape == "value-differs" && m.route.starts_with("jq/") && significant_digits(lit) > MANTISSA_CAP + 1 && lit.contains(['e', 'E']) {
+        let printed: String = m.printed.chars().take(60).collect();
+        return Fail::new(KNOWN_CAP_SIG, json!({"input": input, "route": m.route, "printed_head": printed, "printed_len": m.printed.len(), "why": m.why}));
+    }
+    to_fail(m, input)
+}
+
+fn short(lit: &str) -> String {
+    if lit.len() <= 400 {
+        lit.to_string()
+    } else {
+        format!("{}…(+{} chars)…{}", &lit[..200], lit.len() - 260, &lit[lit.len() - 60..])
+    }
+}
+
+fn to_fail(m: Mis, input: Value) -> Fail {
+    Fail::new(format!("C10/{}/{}", m.route, m.shape), json!({"input": input, "printed": m.printed, "why": m.why}))
+}
+
+// ---------------------------------------------------------------- CLI layer
+
+struct CliItem {
+    text: String,
+    want: f64,
+    /// Some(digits) when the item is an i64 that must print digit for digit when passed through
+    exact: Option<String>,
+}
+
+fn gen_cli_items(u: &mut Src, st: &mut Stats) -> Vec<CliItem> {
+    let n = u.range(1, 120);
+    let mut items = vec![];
+    for _ in 0..n {
+        match u.below(5) {
+            0 => {
+                let (i, _) = gen_i64(u);
+                let d = i64_digits(i);
+                items.push(CliItem { text: d.clone(), want: i as f64, exact: Some(d) });
+            }
+            1 | 2 => {
+                let (f, _) = gen_f64(u);
+                // the shortest round-trip spelling is itself a JSON number (Rust never prints "1." or ".5")
+                let text = if u.bool() { format!("{:e}", f) } else { format!("{:?}", f) };
+                if float_nontrivial(f) {
+                    st.nontrivial(f.to_bits());
+                }
+                items.push(CliItem { text, want: f, exact: None });
+            }
+            _ => {
+                let (lit, _) = gen_literal(u);
+                let v: f64 = lit.parse().unwrap_or(f64::NAN);
+                if !v.is_finite() || lit.len() > 2000 {
+                    continue;
+                }
+                if literal_nontrivial(&lit, v) {
+                    st.nontrivial(hash_str(&lit));
+                }
+                items.push(CliItem { text: lit, want: v, exact: None });
+            }
+        }
+    }
+    if items.is_empty() {
+        items.push(CliItem { text: "1".into(), want: 1.0, exact: Some("1".into()) });
+    }
+    items
+}
+
+static TIMEOUTS: std::sync::atomic::AtomicU64 = std::sync::atomic::AtomicU64::new(0);
+static FIRST_TIMEOUT: std::sync::Mutex<Option<String>> = std::sync::Mutex::new(None);
+
+#[derive(Clone, Copy)]
+enum Read {
+    JsonArray,
+    YamlSeq,
+}
+
+/// one CLI route over a batch; returns the index of the first item that reads back wrong
+fn cli_route(name: &'static str, args: &[&str], file: &std::path::Path, read: Read, items: &[CliItem], passthrough: bool) -> Result<(), (Option<usize>, Mis)> {
+    let f = file.to_string_lossy().to_string();
+    let mut a: Vec<&str> = args.to_vec();
+    a.push(&f);
+    let mut o = cli::run(&a, None);
+    if o.timed_out {
+        // a loaded machine can starve one spawn past the watchdog: try once more
+        o = cli::run(&a, None);
+    }
+    if o.timed_out {
+        // inconclusive by itself; never a violation (reported as exit 2 at the end)
+        TIMEOUTS.fetch_add(1, std::sync::atomic::Ordering::Relaxed);
+        let mut g = FIRST_TIMEOUT.lock().unwrap();
+        if g.is_none() {
+            *g = Some(format!("args {:?} input {:?}", args, String::from_utf8_lossy(&std::fs::read(file).unwrap_or_default()).chars().take(600).collect::<String>()));
+        }
+        return Ok(());
+    }
+    if !o.ok() {
+        return Err((None, Mis { route: name, shape: "cli-error", why: format!("exit {:?} signal {:?}: {}", o.code, o.signal, o.stderr_str().chars().take(300).collect::<String>()), printed: String::new() }));
+    }
+    let out = o.stdout_str();
+    let got: Vec<(f64, String)> = match read {
+        Read::JsonArray => match split_json_array(&out) {
+            Some(ts) => {
+                let mut v = vec![];
+                for t in ts {
+                    match json_number(&t) {
+                        Ok(x) => v.push((x, t)),
+                        Err(e) => return Err((Some(v.len()), Mis { route: name, shape: "not-a-number", why: e, printed: t })),
+                    }
+                }
+                v
+            }
+            None => return Err((None, Mis { route: name, shape: "not-a-number", why: "stdout is not one flat JSON array".into(), printed: out.chars().take(300).collect() })),
+        },
+        Read::YamlSeq => {
+            let mut v = vec![];
+            // YAML-sourced input keeps its flow style: `[a, b, c]` on one line
+            let flow: Option<Vec<String>> = split_json_array(&out).filter(|_| out.trim_start().starts_with('[')).map(|ts| ts.into_iter().map(|t| format!("- {}", t)).collect());
+            let block: Vec<String> = out.lines().filter(|l| !l.is_empty()).map(|l| l.to_string()).collect();
+            for line in flow.as_ref().unwrap_or(&block) {
+                let r = line.strip_prefix("- ").ok_or_else(|| format!("line is not a `- item`: {:?}", line)).and_then(|t| yaml_number(t.trim_end()).map(|n| (n, t.trim_end().to_string())));
+                match r {
+                    Ok((n, t)) => {
+                        let t2 = t.strip_prefix("!!float ").unwrap_or(&t).to_string();
+                        v.push((n.value(), t2));
+                    }
+                    Err(e) => return Err((Some(v.len()), Mis { route: name, shape: "not-a-number", why: e, printed: line.to_string() })),
+                }
+            }
+            v
+        }
+    };
+    if got.len() != items.len() {
+        return Err((None, Mis { route: name, shape: "count", why: format!("{} numbers printed for {} inputs", got.len(), items.len()), printed: out.chars().take(300).collect() }));
+    }
+    for (i, ((v, t), it)) in got.iter().zip(items).enumerate() {
+        if !same(*v, it.want) {
+            return Err((Some(i), Mis { route: name, shape: "value-differs", why: format!("input {} reads back as {:e}", it.text, v), printed: t.clone() }));
+        }
+        if passthrough {
+            if let Some(d) = &it.exact {
+                if t != d {
+                    return Err((Some(i), Mis { route: name, shape: "int-not-exact", why: format!("expected {}", d), printed: t.clone() }));
+                }
+            }
+        }
+    }
+    Ok(())
+}
+
+const CLI_ROUTES: &[(&str, &[&str], bool, bool)] = &[
+    // (name, args, yaml output?, pass-through?)
+    ("cli/jq -c .", &["jq", "-c", "."], false, true),
+    ("cli/jq -c map(.+0)", &["jq", "-c", "map(. + 0)"], false, false),
+    ("cli/jq -c map(.*1)", &["jq", "-c", "map(. * 1)"], false, false),
+    ("cli/yq -o json .", &["yq", "-o", "json", "-I0", "."], false, true),
+    ("cli/yq -p yaml -o json .", &["yq", "-p", "yaml", "-o", "json", "-I0", "."], false, true),
+    ("cli/yq .", &["yq", "."], true, true),
+    ("cli/yq -p yaml .", &["yq", "-p", "yaml", "."], true, true),
+    ("cli/yq map(.*1)", &["yq", "map(. * 1)"], true, false),
+    ("cli/yq -o json map(.*1)", &["yq", "-o", "json", "-I0", "map(. * 1)"], false, false),
+    ("cli/yq -o json map(.+0)", &["yq", "-o", "json", "-I0", "map(. + 0)"], false, false),
+];
+
+fn check_cli_batch(items: &[CliItem]) -> Result<(), Fail> {
+    let doc = format!("[{}]", items.iter().map(|i| i.text.as_str()).collect::<Vec<_>>().join(","));
+    let path = cli::write_tmp("c10", doc.as_bytes());
+    let path = {
+        // the yq front end picks the input format from the extension
+        let p2 = path.with_extension("json");
+        let _ = std::fs::rename(&path, &p2);
+        p2
+    };
+    let mut res = Ok(());
+    for (name, args, yaml, pass) in CLI_ROUTES {
+        let read = if *yaml { Read::YamlSeq } else { Read::JsonArray };
+        if let Err((idx, m)) = cli_route(name, args, &path, read, items, *pass) {
+            let input = match idx {
+                Some(i) => json!({"literal": items[i].text, "batch_size": items.len(), "index": i}),
+                None => json!({"batch": doc.chars().take(2000).collect::<String>()}),
+            };
+            res = Err(to_fail(m, input));
+            break;
+        }
+    }
+    let _ = std::fs::remove_file(&path);
+    res
+}
+
+// ---------------------------------------------------------------- replays
+
+fn replay_input(v: &Value) -> Option<Fail> {
+    let inp = &v["input"];
+    let mut st = Stats::default();
+    let r: Result<(), Fail> = match v["subcheck"].as_str().unwrap_or("") {
+        "float" => {
+            let bits = u64::from_str_radix(inp["bits_hex"].as_str().unwrap_or("0").trim_start_matches("0x"), 16).unwrap_or(0);
+            let f = f64::from_bits(bits);
+            check_float(f, &mut st).map_err(|m| to_fail(m, json!({"bits_hex": format!("{:016x}", bits), "value": format!("{:e}", f)})))
+        }
+        "int" => {
+            let n = inp["value"].as_i64().unwrap_or(0);
+            check_int(n, &mut st).map_err(|m| to_fail(m, json!({"value": n})))
+        }
+        "literal" => {
+            let lit = inp["literal"].as_str().unwrap_or("0").to_string();
+            let want: f64 = lit.parse().unwrap_or(f64::NAN);
+            if !want.is_finite() {
+                Err(Fail::new("C10/replay/bad-input", json!({"literal": lit})))
+            } else {
+                check_literal(&lit, want, &mut st)
+                    .and_then(|_| check_literal_document(&[(lit.clone(), want)], &mut st))
+                    .map_err(|m| to_fail(m, json!({"literal": lit})))
+            }
+        }
+        // a literal too long to store: prefix + zeros x "0" + suffix
+        "literal-parts" => {
+            let lit = format!("{}{}{}", inp["prefix"].as_str().unwrap_or(""), "0".repeat(inp["zeros"].as_u64().unwrap_or(0) as usize), inp["suffix"].as_str().unwrap_or(""));
+            let want: f64 = lit.parse().unwrap_or(f64::NAN);
+            if !want.is_finite() || !matches!(jsonval::parse_one(lit.as_bytes()), Ok(J::Num(_))) {
+                Err(Fail::new("C10/replay/bad-input", json!({"literal": short(&lit)})))
+            } else {
+                check_literal(&lit, want, &mut st)
+                    .and_then(|_| check_literal_document(&[(lit.clone(), want)], &mut st))
+                    .map_err(|m| literal_fail(m, &lit, json!({"literal": short(&lit), "literal_len": lit.len()})))
+            }
+        }
+        "cli" => {
+            let lits: Vec<String> = inp["literals"].as_array().map(|a| a.iter().filter_map(|x| x.as_str().map(|s| s.to_string())).collect()).unwrap_or_default();
+            let items: Vec<CliItem> = lits
+                .iter()
+                .map(|l| CliItem { text: l.clone(), want: l.parse().unwrap_or(f64::NAN), exact: l.parse::<i64>().ok().map(i64_digits).filter(|d| d == l) })
+                .collect();
+            if items.is_empty() || items.iter().any(|i| !i.want.is_finite()) || !cli::cli_available() {
+                Err(Fail::new("C10/replay/bad-input", json!({"literals": lits})))
+            } else {
+                check_cli_batch(&items)
+            }
+        }
+        other => Err(Fail::new("C10/replay/unknown-subcheck", json!({"subcheck": other}))),
+    };
+    r.err()
+}
+
+// ---------------------------------------------------------------- run
+
+/// class guards only make sense for a generated search (not under `vh replay`)
+fn req(cx: &mut Ctx, sub: &str, class: &str, min: u64) {
+    if cx.replay_entropy.is_none() {
+        cx.require_class(sub, class, min);
+    }
+}
 
 pub fn run(cx: &mut Ctx) {
-    cx.infra("check not built");
+    cx.assume("trusted base: Rust's str::parse::<f64> is correctly rounded; O-jsonval decides the JSON number grammar; the YAML 1.2 core-schema number rules (10.3.2) are re-implemented in this module");
+    cx.assume("equality is numeric equality of doubles (bit equality for non-zero values); the sign of zero is not asserted");
+    cx.assume("only finite doubles and literals whose value is a finite double are in the domain; literals that overflow are discarded and counted");
+    cx.assume("integers: every i64 handed to a printer, or passed through unchanged by the CLI, must print digit for digit (harness digit loop); integers that have been computed with (map(.+0), map(.*1)) only need to read back to the same double");
+    for (name, v) in cx.replays.clone() {
+        if v["kind"] == "input" {
+            let r = replay_input(&v);
+            cx.replay_outcome(&name, r);
+        }
+    }
+
+    cx.check(
+        "float-printers",
+        "1-48 finite doubles per case through 15 printer routes each: jq to_json / stream_owned_value_json_jq (root, nested), yq JSON (format_float_with_fraction, format_float_yq, StreamableValue::stream_json root/nested), yq YAML (format_float_with_fraction, format_float_yq, format_float_yq_yaml, format_float_yq_yaml_nested, StreamableValue::stream_yaml root / sequence item / mapping value); JSON routes must print a JSON number, YAML routes a core-schema number that the harness and resolve_plain both read as the source double",
+        Budget { quick: 40_000, thorough: 2_000_000, max_len: 1024 },
+        |u, st| {
+            let n = u.range(1, 48);
+            let mut vals = vec![];
+            for _ in 0..n {
+                let (f, class) = gen_f64(u);
+                st.class(class);
+                if float_nontrivial(f) {
+                    st.class("nontrivial");
+                    st.nontrivial(f.to_bits());
+                }
+                st.class_if(f.abs() >= 1e21 || (f != 0.0 && f.abs() < 1e-6), "scientific-range");
+                st.class_if(f.fract() == 0.0 && f.abs() < 1e15, "whole-number");
+                st.sample(class, || json!({"bits_hex": format!("{:016x}", f.to_bits()), "value": format!("{:e}", f)}));
+                vals.push(f);
+            }
+            st.describe(|| json!({"doubles": vals.iter().map(|f| json!({"bits_hex": format!("{:016x}", f.to_bits()), "value": format!("{:e}", f)})).collect::<Vec<_>>()}));
+            for &f in &vals {
+                check_float(f, st).map_err(|m| to_fail(m, json!({"bits_hex": format!("{:016x}", f.to_bits()), "value": format!("{:e}", f)})))?;
+            }
+            Ok(())
+        },
+    );
+    for c in ["nontrivial", "random-bits", "subnormal", "zero", "pow10", "pow2", "near-2^53-2^63-2^64", "integer-valued", "short-decimal", "notation-threshold", "f32", "extreme", "window", "whole-number", "scientific-range"] {
+        req(cx, "float-printers", c, 50);
+    }
+
+    cx.check(
+        "i64-exact",
+        "1-48 i64 values per case (boundaries, 2^k and 10^k +-2, near 2^53, near MIN/MAX, random widths) through OwnedValue::int / from_number_bytes / from_number_literal_plain and every jq / yq JSON / yq YAML printer (root and nested): the text must be exactly the decimal digits (harness digit loop) and resolve_plain must read the same integer",
+        Budget { quick: 20_000, thorough: 1_000_000, max_len: 1024 },
+        |u, st| {
+            let n = u.range(1, 48);
+            let mut vals = vec![];
+            for _ in 0..n {
+                let (i, class) = gen_i64(u);
+                st.class(class);
+                if i.unsigned_abs() > (1 << 53) {
+                    st.class("beyond-2^53");
+                    st.nontrivial(i as u64);
+                }
+                st.sample(class, || json!({ "value": i }));
+                vals.push(i);
+            }
+            st.describe(|| json!({ "ints": vals }));
+            for &i in &vals {
+                check_int(i, st).map_err(|m| to_fail(m, json!({ "value": i })))?;
+            }
+            Ok(())
+        },
+    );
+    for c in ["boundary", "beyond-2^53", "near-2^53", "near-max", "near-min", "random"] {
+        req(cx, "i64-exact", c, 50);
+    }
+
+    cx.check(
+        "literal-printers",
+        "1-24 JSON-grammar literals per case (finite values only) through format_number_jq_compat, from_number_bytes -> to_json / stream_owned_value_json_jq / into_plain_number, yq echo (stream_json, stream_yaml) and yq canonicalisation (from_number_literal_plain -> stream_json / stream_yaml root and nested); then the whole batch as one JSON document through the generic evaluator with `.`, `.[]`, map(.+0), map(.*1), map(-(-.)), tojson and map(tostring); every printed number must read back as the literal's double",
+        Budget { quick: 40_000, thorough: 1_000_000, max_len: 2048 },
+        |u, st| {
+            let n = u.range(1, 24);
+            let mut lits: Vec<(String, f64)> = vec![];
+            for _ in 0..n {
+                let (lit, class) = gen_literal(u);
+                // generator self-check: the literal is in the JSON grammar
+                if !matches!(jsonval::parse_one(lit.as_bytes()), Ok(J::Num(_))) {
+                    return Err(Fail::new("C10/generator/not-a-json-number", json!({"literal": lit, "class": class})));
+                }
+                let v: f64 = lit.parse().unwrap_or(f64::NAN);
+                if !v.is_finite() {
+                    st.class("discarded-overflow");
+                    continue;
+                }
+                st.class(class);
+                if literal_nontrivial(&lit, v) {
+                    st.class("nontrivial");
+                    st.nontrivial(hash_str(&lit));
+                }
+                st.class_if(v == 0.0 && lit.bytes().any(|c| (b'1'..=b'9').contains(&c)) && !lit.trim_start_matches('-').starts_with("0e") && !lit.trim_start_matches('-').starts_with("0E"), "underflows-to-zero");
+                st.class_if(lit.len() > 100, "long>100");
+                st.class_if(lit.contains(['e', 'E']), "has-exponent");
+                st.sample(class, || json!({"literal": lit.chars().take(200).collect::<String>(), "value": format!("{:e}", v)}));
+                lits.push((lit, v));
+            }
+            st.describe(|| json!({"literals": lits.iter().map(|l| short(&l.0)).collect::<Vec<_>>()}));
+            let mut small: Vec<(String, f64)> = vec![];
+            for (lit, v) in &lits {
+                check_literal(lit, *v, st).map_err(|m| literal_fail(m, lit, json!({"literal": short(lit), "literal_len": lit.len(), "value": format!("{:e}", v)})))?;
+                if lit.len() > 5000 {
+                    // huge literals go through the evaluator on their own
+                    check_literal_document(&[(lit.clone(), *v)], st).map_err(|m| literal_fail(m, lit, json!({"literal": short(lit), "literal_len": lit.len()})))?;
+                } else {
+                    small.push((lit.clone(), *v));
+                }
+            }
+            if !small.is_empty() {
+                check_literal_document(&small, st).map_err(|m| to_fail(m, json!({"literals": small.iter().map(|l| l.0.clone()).collect::<Vec<_>>()})))?;
+            }
+            Ok(())
+        },
+    );
+    req(cx, "literal-printers", "beyond-mantissa-cap", 10);
+    for c in ["nontrivial", "g-json", "mantissa-exponent", "zero-spelling", "halfway", "exact-expansion", "edge", "zero-runs", "integer-literal", "shortest", "has-exponent", "long>100"] {
+        req(cx, "literal-printers", c, 50);
+    }
+
+    if cli::cli_available() {
+        cx.check(
+            "cli-batches",
+            "one JSON array of 1-120 numbers per case (i64 digits, shortest spellings of generated doubles, generated literals; finite only) written to a .json file and run through `jq -c .`, `jq -c 'map(.+0)'`, `jq -c 'map(.*1)'`, `yq -o json -I0 .` (auto and -p yaml), `yq .` (auto and -p yaml), `yq 'map(.*1)'`, `yq -o json 'map(.*1)'`, `yq -o json 'map(.+0)'`; JSON output read with O-jsonval, YAML output with the core-schema line reader; every number must read back as its source double and pass-through i64 must print digit for digit",
+            Budget { quick: 40, thorough: 2_000, max_len: 8192 },
+            |u, st| {
+                let items = gen_cli_items(u, st);
+                st.class_if(items.iter().any(|i| i.exact.is_some()), "has-i64");
+                st.class_if(items.len() >= 20, "batch>=20");
+                st.size(items.len());
+                st.evals(items.len() as u64 * CLI_ROUTES.len() as u64);
+                st.describe(|| json!({"literals": items.iter().map(|i| i.text.clone()).collect::<Vec<_>>()}));
+                st.sample("batch", || json!({"n": items.len(), "first": items.iter().take(6).map(|i| i.text.chars().take(60).collect::<String>()).collect::<Vec<_>>()}));
+                check_cli_batch(&items)
+            },
+        );
+        req(cx, "cli-batches", "batch>=20", 10);
+        let t = TIMEOUTS.load(std::sync::atomic::Ordering::Relaxed);
+        if t > 0 {
+            let first = FIRST_TIMEOUT.lock().unwrap().clone().unwrap_or_default();
+            cx.infra(format!("{} CLI spawns hit the 20 s watchdog (inconclusive); first: {}", t, first));
+        }
+    } else {
+        cx.infra(format!("CLI binary not found at {}", cli::cli_path()));
+    }
+    cli::cleanup();
 }
